@@ -96,6 +96,7 @@ def run_case(spec):
   kappa = 1.0 + (rr.xbar / max(float(np.std(xr_pre)), 1e-300)) ** 2
   rt = 1e-9 + 2e-15 * kappa
   vol = float(np.abs(yr_an).sum() + np.abs(yr_pre).mean() * len(yr_an))
+  rt_sig = 200 * 2.2e-16 * float(np.abs(yr_pre).max()) / rr.sigma      # near-perfect fits (see C06)
   thr_base = r.choice([0.0, 0.0, 0.5, 2.0, -1.0])
   model = mod.TBRiROAS(use_cooldown=use_cool)
   if r.random() < 0.3:
@@ -141,7 +142,7 @@ def run_case(spec):
     counters['fixed_checked'] += 1
     cost = float(yc_an.sum())              # counterfactual cost is 0 in the fixed scenario
     loc, sc = float(rr.loc[-1]), float(rr.scale[-1])
-    atol = (rt * vol + 1e-9 * abs(sc * tq)) / abs(cost)
+    atol = (rt * vol + (1e-9 + rt_sig) * abs(sc * tq)) / abs(cost)
     want = {'estimate': loc / cost, 'lower': (loc + sc * tq) / cost,
             'upper': math.inf if tails == 1 else (loc - sc * tq) / cost}
     for k, wv in want.items():
@@ -160,7 +161,7 @@ def run_case(spec):
       add('fixed-response-upper', 'fixed-incremental-response-upper', 'incremental_response_upper=%.12g, upper x cost=%.12g' % (iru, up * cost))
     zthr = (thr_base * cost - loc) / sc
     p_want = float(1.0 - stats.t.cdf(zthr, rr.df))
-    p_tol = 1e-9 + float(stats.t.pdf(zthr, rr.df)) * (rt * vol / sc + rt * 10 * abs(zthr)) * 10
+    p_tol = 1e-9 + float(stats.t.pdf(zthr, rr.df)) * (rt * vol / sc + (rt * 10 + rt_sig) * abs(zthr)) * 10
     if abs(float(row['probability']) - p_want) > p_tol:
       add('fixed-probability', 'fixed-probability', 'probability=%.10g, P(effect/cost > %g)=%.10g' % (float(row['probability']), thr_base, p_want))
   elif label == 'variable' and want_label == 'variable':
@@ -181,7 +182,7 @@ def run_case(spec):
     if not util.close(float(row['incremental_cost']), float(rc.loc[-1]), rtol=1e-9 + 2e-15 * kc, atol=(1e-9 + 2e-15 * kc) * float(np.abs(yc_t).sum())):
       add('variable-cost', 'variable-incremental-cost', 'incremental_cost=%.12g, closed form (test period) %.12g' % (float(row['incremental_cost']), float(rc.loc[-1])))
     want_irl = float(rr.loc[-1] + rr.scale[-1] * tq)
-    if not util.close(float(row['incremental_response_lower']), want_irl, rtol=rt * 10, atol=rt * vol + 1e-9 * abs(float(rr.scale[-1]) * tq)):
+    if not util.close(float(row['incremental_response_lower']), want_irl, rtol=rt * 10, atol=rt * vol + (1e-9 + rt_sig) * abs(float(rr.scale[-1]) * tq)):
       add('variable-response-lower', 'variable-incremental-response-lower', 'incremental_response_lower=%.12g, posterior quantile %.12g' % (
           float(row['incremental_response_lower']), want_irl))
   if not (low <= est <= up):
@@ -211,9 +212,12 @@ def run_case(spec):
       if not (v1 == v2 or util.close(v1, v2, rtol=1e-7, atol=(1e-9 * (abs(float(row['estimate'])) + width) + noise_floor) * q)):
         add('equivariance', 'equivariance:' + k, 'cost x %g, response x %g: %s=%.12g, wanted %.12g' % (a, b, k, v2, v1))
         break
+    # when the treatment follows the control almost perfectly, residuals (hence sigma, z-values, probabilities) carry a
+    # relative rounding noise of about eps * |y| / sigma
+    rt_sigma = 200 * 2.2e-16 * float(np.abs(yr_pre).max()) / rr.sigma
     for k in ('probability', 'relative_lift', 'relative_lift_lower', 'relative_lift_upper'):
       v1, v2 = float(row[k]), float(row2[k])
-      if not (v1 == v2 or util.close(v1, v2, rtol=1e-7, atol=1e-9)):
+      if not (v1 == v2 or util.close(v1, v2, rtol=1e-7 + 10 * rt_sigma, atol=1e-9 + 10 * rt_sigma)):
         add('equivariance', 'equivariance:' + k, 'cost x %g, response x %g: %s changed from %.12g to %.12g' % (a, b, k, v1, v2))
         break
     if str(row2['scenario']) != label:
